@@ -571,4 +571,25 @@ theorem spec_checker_sound (bu ru bg rg : Nat) (fp : Bool) (e e' : Entry) :
 example : hardenedB 250 0 250 0 false ⟨0, "/bin/su".toList, 0o104757, 250, 7, 1⟩ ⟨0, "/bin/su".toList, 0o100755, 0, 7, 1⟩ = true := by
   decide
 
+/-- **What the stage does to an entry does not depend on how the entry is called.**  For every renaming `ρ` of the
+locations that keeps them distinct (any characters whatsoever: `%`, `{`, spaces, …) and every standard trigger order,
+hardening the renamed set gives the renamed hardened set: uid, gid, mode, kind and payload of each result are those
+of the original run.  In particular no file name can switch the hardening off for itself or for the other entries. -/
+theorem outcome_independent_of_names (bu ru bg rg : Nat) (ts : List Trigger) (hs : Standard bu ru bg rg ts)
+    (ρ : List Char → List Char) (c : CSet) (hnd : (c.map (·.loc)).Nodup)
+    (hnd' : ((c.map (Entry.rename ρ)).map (·.loc)).Nodup) :
+    runTriggers ts (c.map (Entry.rename ρ)) = (runTriggers ts c).map (Entry.rename ρ) ∧
+    ∀ e ∈ c, Hardened bu ru bg rg (decide (Trigger.detectWorldWritable true ∈ ts)) (e.rename ρ) ((hardenWith ts e).rename ρ) := by
+  refine ⟨?_, ?_⟩
+  · rw [(premerge_pointwise ts hs.noReset _ hnd').1, (premerge_pointwise ts hs.noReset c hnd).1, List.map_map, List.map_map]
+    apply List.map_congr_left
+    intro e _
+    exact hardenWith_rename ρ ts e
+  · intro e _
+    rw [← hardenWith_rename]
+    exact harden_spec bu ru bg rg ts hs (e.rename ρ)
+
+example : ((([⟨0, "/a".toList, 0o4777, 250, 250, 1⟩, ⟨2, "/l".toList, 0o777, 0, 0, 2⟩] : CSet).map
+    (Entry.rename fun l => l ++ "/100%.sav".toList)).map (·.loc)).Nodup := by decide
+
 end Pkgcore.C23
